@@ -32,6 +32,9 @@ def opInDomain : Op → Bool
       | none => true)
   | .setdel _ _ _ a => decide (0 < a) && decide (a ≤ MaxNanoTime)
   | .pre _ to => decide (to ≤ MaxNanoTime)
+  /- truncation (`TruncateShardGroups`, no production caller) leaves the domain of the history
+     theorems: truncated groups overlap their successors in raw bounds -/
+  | .trunc _ => false
   | _ => true
 
 /-- "older than now minus the retention period" for one timestamp -/
@@ -96,8 +99,15 @@ def holdsOp : Op × Obs → Bool
   | (.dc cs, .dc log pre loc) => deletionOK cs log pre loc
   | _ => true
 
-/-- the statement on one case (a case that leaves the quantifier domain is not judged) -/
+/-- the expiry clause alone: it speaks about one `ExpiredShardGroups` answer and the groups it was
+    computed from, whatever happened before (also after truncations) -/
+def holdsExp : Op × Obs → Bool
+  | (.exp _ _ D t, .expired ids gs) => expiredOK D t ids gs
+  | _ => true
+
+/-- the statement on one case: the expiry clause always; the write and deletion clauses when the
+    history stays inside the quantifier domain -/
 def holdsOn (tr : List (Op × Obs)) : Bool :=
-  !(tr.all fun p => opInDomain p.1) || tr.all holdsOp
+  tr.all holdsExp && (!(tr.all fun p => opInDomain p.1) || tr.all holdsOp)
 
 end Influx.Spec.C19
